@@ -512,10 +512,15 @@ def facts_mean(mod, em):
                     eq_fn = t.test.func.id
         if not ok_loop:
             raise NoMatch("exclusion loop")
-        if not (isinstance(if_st, ast.If) and isinstance(if_st.test, ast.UnaryOp) and isinstance(if_st.test.op, ast.Not)
-                and isinstance(if_st.test.operand, ast.Name) and if_st.test.operand.id == flag):
+        # `if not exclude: <mean> else: <copy>`  or, with the branches swapped, `if exclude: <copy> else: <mean>`
+        if isinstance(if_st, ast.If) and isinstance(if_st.test, ast.UnaryOp) and isinstance(if_st.test.op, ast.Not) \
+                and isinstance(if_st.test.operand, ast.Name) and if_st.test.operand.id == flag:
+            mean_body, copy_body = if_st.body, if_st.orelse
+        elif isinstance(if_st, ast.If) and isinstance(if_st.test, ast.Name) and if_st.test.id == flag:
+            mean_body, copy_body = if_st.orelse, if_st.body
+        else:
             raise NoMatch("if not exclude")
-        loc = simple_assigns(if_st.body)
+        loc = simple_assigns(mean_body)
         ix = IX(env)
         for nm, val in loc.items():
             try:
@@ -534,7 +539,7 @@ def facts_mean(mod, em):
             raise NoMatch("window slice")
         wname, wsub = sl
         s0, s1 = wsub.slice.elts
-        store = [s for s in if_st.body if isinstance(s, ast.Assign) and isinstance(s.targets[0], ast.Subscript)]
+        store = [s for s in mean_body if isinstance(s, ast.Assign) and isinstance(s.targets[0], ast.Subscript)]
         if len(store) != 1:
             raise NoMatch("store of the mean")
         _, oy, ox = idx2(store[0].targets[0])
@@ -550,8 +555,8 @@ def facts_mean(mod, em):
         em.define("mean_reducer", "", "String", lean_str(call_name(v.func) or "?"), ast.unparse(store[0]))
         # else: out[y, x] = data[y, x]
         pt = False
-        if len(if_st.orelse) == 1 and isinstance(if_st.orelse[0], ast.Assign):
-            e = if_st.orelse[0]
+        if len(copy_body) == 1 and isinstance(copy_body[0], ast.Assign):
+            e = copy_body[0]
             try:
                 _, a, b = idx2(e.targets[0])
                 _, c, d = idx2(e.value, data)
@@ -559,7 +564,7 @@ def facts_mean(mod, em):
             except NoMatch:
                 pt = False
         em.define("mean_excluded_pass_through", "", "Bool", "true" if pt else "false",
-                  "else: " + (ast.unparse(if_st.orelse[0]) if if_st.orelse else "<missing>"))
+                  "else: " + (ast.unparse(copy_body[0]) if copy_body else "<missing>"))
         em.define("mean_equal_fn", "", "String", lean_str(eq_fn), ast.unparse(loop_st.body[0].test))
         em.define("mean_kernel_ok", "", "Bool", "true", "all patterns of focal._mean_numpy recognised")
     except NoMatch as ex:
